@@ -24,7 +24,7 @@ import (
 	"strings"
 )
 
-const repo = "/repo"
+var repo = "/repo"
 
 func fatalf(format string, a ...any) {
 	fmt.Fprintf(os.Stderr, "INSTRUMENTATION-FAILURE: "+format+"\n", a...)
@@ -52,9 +52,11 @@ func main() {
 		osP     = flag.String("os", "", "")
 		chanP   = flag.String("chan", "", "")
 		out     = flag.String("out", "", "output directory")
+		repoF   = flag.String("repo", "/repo", "repository working tree")
 		overlay = flag.String("overlaydir", "/verif/mc/overlay", "")
 	)
 	flag.Parse()
+	repo = *repoF
 	if *out == "" {
 		fatalf("-out required")
 	}
